@@ -103,6 +103,61 @@ def one(case, idx):
     return dict(lookups=lookups, failures=failures[:10])
 
 
+def samename(case, idx):
+    """The SAME identifier declared in several name spaces of one cdef: struct n, enum n, typedef n (three different
+    tables of the module) and, for case["clash"], union n as well (a second record with the key n in _struct_unions).
+    Every declared tag / typedef must be found and resolve to its own entry, as it does in the in-line FFI."""
+    names, clash = case["names"], case.get("clash")
+    failures, lookups = [], 0
+    ffi = cffi.FFI()
+    cdef = []
+    for i, n in enumerate(names):
+        cdef.append("struct %s { char x[%d]; };" % (n, 2 * i + 3))
+        cdef.append("enum %s { v%s = %d };" % (n, n, 5000 + i))
+        cdef.append("typedef char %s[%d];" % (n, 2 * i + 4))
+        if n == clash:
+            cdef.append("union %s { char y[%d]; short z; };" % (n, 2 * i + 7))
+    ffi.cdef("\n".join(cdef))
+    modname = "_c25_same_%d" % idx
+    work = os.environ["VERIF_WORK"]
+    ffi.set_source(modname, None)
+    path = os.path.join(work, modname + ".py")
+    try:
+        ffi.emit_python_code(path)
+    except cffi.VerificationError as e:
+        if clash:       # the generator refuses struct x + union x loudly: no module is produced, nothing is lost
+            return dict(lookups=1, failures=[])
+        return dict(lookups=1, failures=["emit_python_code refuses a cdef without tag clash: %s" % e])
+    spec = importlib.util.spec_from_file_location(modname, path)
+    mod = importlib.util.module_from_spec(spec)
+    spec.loader.exec_module(mod)
+    ffi2 = mod.ffi
+    for i, n in enumerate(names):
+        wants = [("struct " + n, "struct", 2 * i + 3), (n, "array", 2 * i + 4), ("enum " + n, "enum", 4)]
+        if n == clash:
+            wants.append(("union " + n, "union", 2 * i + 8))
+        for ts, kind, size in wants:
+            lookups += 1
+            tag = "tagclash: " if n == clash and kind in ("struct", "union") else ""
+            try:
+                inl = (ffi.typeof(ts).kind, ffi.sizeof(ts))
+            except Exception as e:
+                failures.append("in-line FFI does not resolve %r: %s" % (ts, type(e).__name__))
+                continue
+            if inl != (kind, size):
+                failures.append("in-line %r is %r, declared %r" % (ts, inl, (kind, size)))
+            try:
+                got = (ffi2.typeof(ts).kind, ffi2.sizeof(ts))
+                if got != (kind, size):
+                    failures.append("%s%r resolves to another entry: %r, declared %r" % (tag, ts, got, (kind, size)))
+                if kind == "enum" and ffi2.typeof(ts).relements != {"v" + n: 5000 + i}:
+                    failures.append("enum %s resolves to another entry" % n)
+            except Exception as e:
+                failures.append("%sdeclared %r (also declared in other name spaces) is not found in the generated "
+                                "module: %s: %s" % (tag, ts, type(e).__name__, str(e).split("\n")[0]))
+    return dict(lookups=lookups, failures=failures[:10])
+
+
 SPECIAL = ["__all__", "__dict__", "__class__", "__name__", "__loader__", "__spec__", "__doc__", "__file__",
            "__name", "__name___", "__all___x", "__version__", "_", "__", "___", "__cffi_backend_extern_py",
            "__init__", "__getattr__", "__dir__", "__path__", "__package__", "__cached__", "__builtins__"]
@@ -205,7 +260,7 @@ def include_case(case, idx):
 
 def main(payload):
     return dict(results=[(dunder(c, i) if c["mode"] == "dunder" else include_case(c, i) if c["mode"] == "include"
-                          else one(c, i))
+                          else samename(c, i) if c["mode"] == "samename" else one(c, i))
                          for i, c in enumerate(payload["cases"])])
 
 
